@@ -60,3 +60,73 @@ def const_str(node):
     if isinstance(node, ast.Constant) and isinstance(node.value, (str, bytes)):
         return node.value
     return None
+
+
+MUTATING_METHODS = {'append', 'extend', 'insert', 'pop', 'remove', 'clear', 'sort', 'reverse', 'update', 'add', 'discard', 'setdefault', 'popitem', '__setitem__'}
+
+
+def persistent_writes(src, fn, allowed=()):
+    """writes of a function to state that outlives the call: attributes/items of self, cls, a class of the module or
+    a module-level name (stores, augmented stores, deletes, mutating method calls, `global`).  Private helpers are
+    inlined first.  Returns [(text, lineno)]"""
+    from .. import normalize
+    node, _ = normalize.inline_helpers(fn)
+    mod = fn.module
+    module_names = set(mod.consts.get('', {})) | set(mod.const_nodes.get('', {}))
+    params = {a.arg for a in node.args.args + node.args.kwonlyargs + node.args.posonlyargs} - {'self', 'cls'}
+    local = set(params)
+    for n in ast.walk(node):
+        if isinstance(n, ast.Name) and isinstance(n.ctx, ast.Store):
+            local.add(n.id)
+
+    def root(e):
+        while isinstance(e, (ast.Attribute, ast.Subscript)):
+            e = e.value
+        return e
+
+    def persistent(e):
+        """e (an attribute/subscript chain) lives in self / cls / a class / a module-level name"""
+        r = root(e)
+        if not isinstance(r, ast.Name):
+            return False
+        if r.id in ('self', 'cls') or r.id in mod.classes:
+            return isinstance(e, (ast.Attribute, ast.Subscript))
+        if r.id in module_names and r.id not in local:
+            return True
+        return False
+    out = []
+    for n in ast.walk(node):
+        tgts = []
+        if isinstance(n, ast.Assign):
+            tgts = n.targets
+        elif isinstance(n, (ast.AugAssign, ast.AnnAssign)):
+            tgts = [n.target]
+        elif isinstance(n, ast.Delete):
+            tgts = n.targets
+        elif isinstance(n, ast.Global):
+            out.append(('global ' + ', '.join(n.names), n.lineno))
+        for t in tgts:
+            for x in ([t] if not isinstance(t, (ast.Tuple, ast.List)) else t.elts):
+                if isinstance(x, (ast.Attribute, ast.Subscript)) and persistent(x):
+                    out.append((norm(x), n.lineno))
+        if isinstance(n, ast.Call) and isinstance(n.func, ast.Attribute) and n.func.attr in MUTATING_METHODS and persistent(n.func.value) \
+                and isinstance(n.func.value, (ast.Attribute, ast.Subscript, ast.Name)):
+            out.append((norm(n.func) + '(...)', n.lineno))
+    return [(t, ln) for t, ln in out if not any(t.startswith(a) for a in allowed)]
+
+
+def check_no_hidden_state(rep, src, rule, sites, why, allowed=None):
+    """frame rule: the listed functions compute their answer from their arguments and the current object state only;
+    they write nothing that outlives the call (a memo/cache would make answers depend on the history of calls
+    unless every writer of the inputs invalidates it)"""
+    for site in sites:
+        fn = src.try_func(site)
+        if fn is None:
+            raise AnalysisError('anchor %s not found' % site)
+        rep.saw_func(fn)
+        ws = persistent_writes(src, fn, (allowed or {}).get(site, ()))
+        what = 'writes nothing that outlives the call'
+        if ws:
+            rep.fail(rule, fn.site, what, '%s stores into %s (line %d): %s' % (fn.qual, ws[0][0], ws[0][1], why), where='%s:%d' % (fn.module.relpath, ws[0][1]))
+        else:
+            rep.ok(rule, fn.site, what, 'no store to self/class/module state, no in-place mutation of it')
